@@ -33,7 +33,7 @@ func run(c *fw.Ctx) {
 	permissionSlice(c)
 	faultSlice(c)
 	fsx.Interference(c, mon)
-	linkSlice(c)
+	fsx.LinkSlice(c, mon)
 }
 
 // hostileNames drives OS failure modes the bounded universe cannot reach:
